@@ -462,6 +462,33 @@ def gorow(r):
     return gopt(None if r is None else grow(r))
 
 
+_SINGLE_SUCC = None
+
+
+def single_succ_as_modelled():
+    """How Block.set_single_succ_outputs obtains the unit branch value is the builders' choice (the property promises a
+    valid document, not particular operations).  model/Builder3.v supports ONE choice: a Const(Unit) node and a
+    LoadConstant node appended to the block.  Probe the implementation once; if it chooses otherwise, programs with a
+    single-successor block are outside the third model (their documents are still monitored)."""
+    global _SINGLE_SUCC
+    if _SINGLE_SUCC is None:
+        try:
+            from hugr import tys
+            from hugr.build.cfg import Cfg
+            c = Cfg(tys.Bool)
+            with c.add_entry() as b:
+                b.set_single_succ_outputs(*b.inputs())
+            c.branch_exit(b[0])
+            doc = json.loads(c.hugr.to_json())
+            blk = next(i for i, n in enumerate(doc["nodes"]) if n["op"] == "DataflowBlock")
+            kids = [n for i, n in enumerate(doc["nodes"]) if n["parent"] == blk and i != blk]
+            _SINGLE_SUCC = ([n["op"] for n in kids] == ["Input", "Output", "Const", "LoadConstant"]
+                            and kids[2]["v"].get("v") in ("Sum", "Tuple") and not kids[2]["v"].get("vs"))
+        except Exception:
+            _SINGLE_SUCC = False
+    return _SINGLE_SUCC
+
+
 class Conv3:
     """program (harness/progs.py format) -> prog3 literal; function names are interned per program; `funcs` maps a function
     name to its (ins, outs) type specs as the program text gives them (needed for the type of load_function)"""
@@ -527,6 +554,8 @@ class Conv3:
         """(blocks3 literal, branches literal) of a cfg statement / root; blocks are converted in program order"""
         bls = []
         for bl in c["blocks"]:
+            if bl.get("single") and not single_succ_as_modelled():
+                raise OutOfModel("set_single_succ_outputs does not build Const(Unit) + LoadConstant")
             if bl["kind"] == "entry":
                 k = "BEntry"
             elif bl["kind"] == "succ":
